@@ -124,11 +124,15 @@ func (f c11File) sourceWith(tr func(ref string) string) string {
 		case "setpv":
 			// the includer binds the very name a later include passes as a pair: the pair wins
 			sb.WriteString(`{% set pv = "` + it.Text + `" %}`)
-		case "include", "lazy":
-			if it.Kind == "include" {
+		case "include", "lazy", "lazyrel":
+			switch it.Kind {
+			case "include":
 				sb.WriteString(`{% include "` + it.Ref + `"`)
-			} else {
+			case "lazy":
 				sb.WriteString(`{% include lazy_` + it.Text)
+			default:
+				// a name computed at run time and written relative to this file
+				sb.WriteString(`{% set lzr = "` + it.Ref + `" %}{% include lzr`)
 			}
 			if it.IfExists {
 				sb.WriteString(" if_exists")
@@ -260,9 +264,9 @@ func (r *c11Ref) items(name string, items []c11Item, env *c11Env, sb *strings.Bu
 			} else {
 				sb.WriteString(it.Text)
 			}
-		case "include", "lazy":
+		case "include", "lazy", "lazyrel":
 			var tn string
-			if it.Kind == "include" {
+			if it.Kind == "include" || it.Kind == "lazyrel" {
 				tn = vfsAbs(name, it.Ref)
 			} else {
 				tn = r.lazyVar[it.Text] // rooted by construction
@@ -274,7 +278,7 @@ func (r *c11Ref) items(name string, items []c11Item, env *c11Env, sb *strings.Bu
 				}
 				return c11Missing{name: tn, lazy: true}
 			}
-			if it.Kind == "lazy" {
+			if it.Kind == "lazy" || it.Kind == "lazyrel" {
 				if err := r.compileCheck(tn, t, map[string]bool{}); err != nil {
 					if m, ok := err.(c11Missing); ok {
 						m.lazy = true
@@ -738,14 +742,28 @@ func genC11(t *rapid.T) *c11Case {
 						}
 						ni.Text = fmt.Sprintf("n%d", idx)
 						ni.IfExists = drawInt(t, 0, 2, "ifexists") == 0
+						if !f.IsBase && !f.Macro && drawBool(t, "lazyrel") {
+							// computed at run time AND written relative to the referring file (only in files
+							// that are executed as templates of their own: root or included)
+							ni.Kind, ni.Text = "lazyrel", ""
+							ni.Ref = relPath(name, target)
+						}
 					case "ssiparsed", "ssi", "import":
 						ni.Ref = c11WriteRef(t, name, target)
 					}
 					if (kind == "include" || kind == "lazy") && drawBool(t, "withpair") {
+						// (ni.Kind may have become lazyrel)
 						ni.Pair = fmt.Sprintf("P%d", len(items))
 						ni.Only = drawBool(t, "only")
 					}
 					items = append(items, ni)
+				}
+			}
+			if f.Extends != "" {
+				for k := range items {
+					if items[k].Kind == "lazyrel" {
+						items[k].Ref = vfsAbs(name, items[k].Ref)
+					}
 				}
 			}
 			f.Items = items
@@ -808,7 +826,7 @@ func genC11(t *rapid.T) *c11Case {
 
 var _ = register(&propSpec{
 	ID:    "C11.compose",
-	Rule:  "virtual file trees (10 names with equal base names in different directories up to 3 deep), 1-3 loaders serving overlapping names with different contents, acyclic reference graphs over include (static / lazy, with pair, only, if_exists), extends (+ block override), import (+ call), ssi plain (content never parsed) and ssi parsed; names written rooted, relative (incl. ..) and rooted with a detour; a reader that breaks half way in the first loader that has a name (must be an error, not a reason to ask the next loader); references to names no loader serves (by every tag; also from inside the target of an if_exists include, which if_exists does not forgive); includer variables (context, set, with pair, a set of the very name a pair passes) probed in every file. The worker's working directory holds canary files at the same relative paths, and two of the virtual names also exist as absolute paths of the real file system (canary content); none of them is served by a loader. Oracle: reference composition (first loader having a name wins; relative names resolve against the referring file; missing => error, or nothing with if_exists; only hides includer variables), the loaders' Get logs contain no name outside the referenced set and everything used was fetched, no canary text ever appears; then the content of every file changes and a fresh FromFile of the root must show the new content by every route (literal and computed names alike). Non-trivial: loaders disagree on a name, or a relative reference crosses directories, or only / if_exists present.",
+	Rule:  "virtual file trees (10 names with equal base names in different directories up to 3 deep), 1-3 loaders serving overlapping names with different contents, acyclic reference graphs over include (static / lazy with rooted names / lazy with names relative to the referring file, with pair, only, if_exists), extends (+ block override), import (+ call), ssi plain (content never parsed) and ssi parsed; names written rooted, relative (incl. ..) and rooted with a detour; a reader that breaks half way in the first loader that has a name (must be an error, not a reason to ask the next loader); references to names no loader serves (by every tag; also from inside the target of an if_exists include, which if_exists does not forgive); includer variables (context, set, with pair, a set of the very name a pair passes) probed in every file. The worker's working directory holds canary files at the same relative paths, and two of the virtual names also exist as absolute paths of the real file system (canary content); none of them is served by a loader. Oracle: reference composition (first loader having a name wins; relative names resolve against the referring file; missing => error, or nothing with if_exists; only hides includer variables), the loaders' Get logs contain no name outside the referenced set and everything used was fetched, no canary text ever appears; then the content of every file changes and a fresh FromFile of the root must show the new content by every route (literal and computed names alike). Non-trivial: loaders disagree on a name, or a relative reference crosses directories, or only / if_exists present.",
 	Gen:   func(t *rapid.T) any { return genC11(t) },
 	New:   func() any { return &c11Case{} },
 	Check: checkC11,
